@@ -356,14 +356,39 @@ pub fn run(cfg: &Config) -> i32 {
     // conforming (minimal / maximal instance, each component at its minimum and maximum length, the
     // same with the optional rest absent); the message stays well-formed, so it must be accepted
     let specs = crate::spec::fieldfmt::specs();
-    let mut subst: Vec<(usize, usize, String, String)> = Vec::new(); // (layout, field index, content, class)
+    // (layout, forced option, field index, content, class): the maximal message once as the generator picks its
+    // options, then once per option letter of every field of the layout with that letter forced
+    let mut subst: Vec<(usize, Option<(String, String)>, usize, String, String)> = Vec::new();
+    fn lettered(nodes: &[crate::spec::layout::Node], out: &mut Vec<(String, String)>) {
+        use crate::spec::layout::Node;
+        for n in nodes {
+            match n {
+                Node::Field(f) => f.opts.iter().filter(|o| f.opts.len() > 1 && !o.is_empty()).for_each(|o| out.push((f.num.to_string(), o.to_string()))),
+                Node::Alt(a) => a.iter().for_each(|f| f.opts.iter().filter(|o| !o.is_empty()).for_each(|o| out.push((f.num.to_string(), o.to_string())))),
+                Node::Seq { items, .. } => lettered(items, out),
+            }
+        }
+    }
+    let mut seen_tags = std::collections::BTreeSet::new();
     for (li, l) in layouts.iter().enumerate() {
+        let mut forced: Vec<Option<(String, String)>> = vec![None];
+        let mut ls = Vec::new();
+        lettered(&l.nodes, &mut ls);
+        ls.sort();
+        ls.dedup();
+        forced.extend(ls.into_iter().map(Some));
+      for force in forced {
         let mut r0 = Rng::new(0, &format!("c03-subst:{}", l.mt), 0);
-        let mut g0 = Gen { r: &mut r0, counter: 7, mt: l.mt, opt: GenOptions { optional_per_mille: 500, max_repeat: 2, max_seq: 2, maximal: true, minimal: false }, force_option: None, force_include: None };
+        let force_include = force.as_ref().map(|f| f.0.clone());
+        let mut g0 = Gen { r: &mut r0, counter: 7, mt: l.mt, opt: GenOptions { optional_per_mille: 500, max_repeat: 2, max_seq: 2, maximal: true, minimal: false }, force_option: force.clone(), force_include };
         let gf = g0.message(l);
-        let mut seen_tags = std::collections::BTreeSet::new();
         for (fi, f) in gf.iter().enumerate() {
-            if !seen_tags.insert(f.tag.clone()) {
+            if let Some((n, o)) = &force
+                && f.tag != format!("{n}{o}")
+            {
+                continue;
+            }
+            if !seen_tags.insert((li, f.tag.clone())) {
                 continue;
             }
             let Some(spec) = specs.iter().find(|s| s.ty == format!("Field{}", f.tag) || s.ty == format!("Field{}NoOption", f.tag)) else { continue };
@@ -374,19 +399,21 @@ pub fn run(cfg: &Config) -> i32 {
                     continue;
                 }
                 if crate::spec::fieldfmt::classify(spec, &c.content) == crate::spec::fieldfmt::Verdict::Accept {
-                    subst.push((li, fi, c.content, c.class));
+                    subst.push((li, force.clone(), fi, c.content, c.class));
                 }
             }
         }
+      }
     }
     let n0 = work.len() as u64;
     let n = n0 + subst.len() as u64;
     let total = par_for(cfg, n, |i, local| {
         if i >= n0 {
-            let (li, fi, content, class) = &subst[(i - n0) as usize];
+            let (li, force, fi, content, class) = &subst[(i - n0) as usize];
             let l = &layouts[*li];
             let mut r0 = Rng::new(0, &format!("c03-subst:{}", l.mt), 0);
-            let mut g0 = Gen { r: &mut r0, counter: 7, mt: l.mt, opt: GenOptions { optional_per_mille: 500, max_repeat: 2, max_seq: 2, maximal: true, minimal: false }, force_option: None, force_include: None };
+            let force_include = force.as_ref().map(|f| f.0.clone());
+            let mut g0 = Gen { r: &mut r0, counter: 7, mt: l.mt, opt: GenOptions { optional_per_mille: 500, max_repeat: 2, max_seq: 2, maximal: true, minimal: false }, force_option: force.clone(), force_include };
             let mut gf = g0.message(l);
             gf[*fi].content = content.clone();
             let shape = format!("spec-substitution:{}:{}", gf[*fi].tag, class.split(',').next().unwrap_or(""));
